@@ -1,6 +1,6 @@
 """Python side of harness/h_decode.c: pack cases, run batches with crash attribution (M-san),
 parse results."""
-import os, struct, subprocess, re, tempfile, hashlib
+import os, struct, subprocess, re, tempfile, hashlib, shutil
 from . import build, core
 
 F_DIRECT, F_MONITOR, F_NOSTORE = 1, 2, 4
@@ -91,6 +91,11 @@ def classify_crash(stderr, rc):
 def run_batch(exe, cases, ctx, label='dec', on_crash=None, timeout=900):
     """Runs all cases; returns {id: Result}.  A fatal report is attributed to the marked case,
     recorded through on_crash(case, cls, key, stderr) and the batch restarts after that case."""
+    return run_marked_batch(exe, cases, ctx, label, on_crash, timeout, parse_results, binary_out=True)
+
+
+def run_marked_batch(exe, cases, ctx, label, on_crash, timeout, parser, binary_out=True, extra_args=(), env_extra=None,
+                     prefix_cmd=()):
     sc = os.path.join(build.scratch_root(), 'b.%s.%d' % (label, os.getpid()))
     os.makedirs(sc, exist_ok=True)
     for i, c in enumerate(cases):
@@ -108,12 +113,13 @@ def run_batch(exe, cases, ctx, label='dec', on_crash=None, timeout=900):
             if os.path.exists(p):
                 os.unlink(p)
         try:
-            r = subprocess.run([exe, cf, of, mf], capture_output=True, env=build.san_env(), timeout=timeout)
+            r = subprocess.run(list(prefix_cmd) + [exe, cf, of, mf] + list(extra_args), capture_output=True,
+                               env=build.san_env(env_extra), timeout=timeout)
             rc, err, sout = r.returncode, r.stderr.decode('latin1'), r.stdout.decode('latin1')
         except subprocess.TimeoutExpired as e:
             rc, err, sout = -999, (e.stderr or b'').decode('latin1'), ''
         data = open(of, 'rb').read() if os.path.exists(of) else b''
-        got = parse_results(data)
+        got = parser(data)
         results.update(got)
         if rc == 0:
             m = re.search(r'HOOKSTATS trees=(\d+) indexes=(\d+) rows=(\d+)(.*)', sout)
@@ -124,15 +130,15 @@ def run_batch(exe, cases, ctx, label='dec', on_crash=None, timeout=900):
                 for name, v in re.findall(r'max\[(\w+)\]=(\d+)', m.group(4)):
                     ctx.cov['hook_max_index_' + name] = max(ctx.cov.get('hook_max_index_' + name, 0), int(v))
             break
-        if rc == 2 and not err.strip():
-            raise core.HarnessFailure('h_decode usage/IO failure')
+        if rc == 2 and 'Sanitizer' not in err and 'runtime error' not in err:
+            raise core.HarnessFailure('%s usage/IO failure: %s' % (os.path.basename(exe), err[-400:]))
         try:
             cur = int(open(mf).read().split()[0])
         except Exception:
-            raise core.HarnessFailure('h_decode died without marker rc=%s err=%s' % (rc, err[-400:]))
+            raise core.HarnessFailure('%s died without marker rc=%s err=%s' % (os.path.basename(exe), rc, err[-400:]))
         case = cases[cur]
         if rc == -999:
-            cls, key = 'hang', 'hang:%s' % case.method
+            cls, key = 'hang', 'hang'
         else:
             cls, key, is_lhasa = classify_crash(err, rc)
             if not is_lhasa:
@@ -143,10 +149,5 @@ def run_batch(exe, cases, ctx, label='dec', on_crash=None, timeout=900):
         start = cur + 1
         if guard > 2000:
             raise core.HarnessFailure('too many crashes in one batch')
-    try:
-        for p in os.listdir(sc):
-            os.unlink(os.path.join(sc, p))
-        os.rmdir(sc)
-    except OSError:
-        pass
+    shutil.rmtree(sc, ignore_errors=True)
     return results
